@@ -1009,8 +1009,11 @@ def deserialize_value_info_proto(
     """
     if value is None:
         value = _core.Value(name=proto.name)
-    value.shape = deserialize_type_proto_for_shape(proto.type)
-    value.type = deserialize_type_proto_for_type(proto.type)
+    if proto.HasField("type"):
+        # An entry without a type must not erase the type and shape the value already has
+        # (e.g. those an initializer takes from its tensor)
+        value.shape = deserialize_type_proto_for_shape(proto.type)
+        value.type = deserialize_type_proto_for_type(proto.type)
     metadata_props = deserialize_metadata_props(proto.metadata_props)
     if metadata_props is not None:
         value.metadata_props.update(metadata_props)
